@@ -422,6 +422,7 @@ package kcp
 //@ func KCP.flush
 //@   callsite segment.encode requires @C09 [every-emitted-header-carries-the-current-una] arg_seg.una == kcp.rcv_nxt
 //@   ensures @C18 [unsent-segments-carry-no-timer] flushType != 2 && old(kcp.wfU()) ==> kcp.wfU()
+//@   ensures @C18 [no-fast-retransmission-while-fast-resend-is-off] kcp.fastresend <= 0 ==> fastRetransSegs == 0
 //@   loop 2 invariant @C18 old(kcp.wfU()) ==> kcp.wfU()
 //@   requires kcp.wf()
 //@   modifies all(kcp), all(kcp.snd_queue), kcp.snd_queue.elements[..], all(kcp.snd_buf), kcp.snd_buf.elements[..], kcp.buffer[..], all(DefaultSnmp)
@@ -443,6 +444,7 @@ package kcp
 //@   loop 2 invariant @C04 newSegsCount > 0 ==> kcp.snd_buf.rlen() <= cwnd
 //@   loop 3 invariant suffixOf(ptr, buffer) && len(buffer) - len(ptr) <= kcp.mtu
 //@   loop 3 invariant @C09 seg.una == kcp.rcv_nxt
+//@   loop 3 invariant @C18 [no-fast-retransmission-while-fast-resend-is-off] kcp.fastresend <= 0 ==> fastRetransSegs == 0
 //@   loop 3 invariant kcp.snd_buf.clean() && kcp.wfSb() && kcp.wfSn() && 0 < nextUpdate && nextUpdate <= kcp.interval
 //
 //@ pred sameOrFreshSlice(a []ackItem, b []ackItem) = ref(a) == ref(b) || fresh(a)
